@@ -83,4 +83,27 @@ Inv_C18 == C18
 Inv_C19 == /\ C19_Idem
            /\ C19_Comp \/ Listed("C19", "C19-blank-wrappers", KF_C19_BlankWrappers(Commits[1].src, cfg), BehId)
 Inv_C20 == C20
+
+\* vacuity guard: prints an APPLIES record when the antecedent of the property holds in a state; always TRUE
+Says(prop, a) == a => PrintT(<<"APPLIES", prop, BehId>>)
+Applies_C01 == Says("C01", App_C01)
+Applies_C02 == Says("C02", App_C02)
+Applies_C03 == Says("C03", App_C03)
+Applies_C04 == Says("C04", App_C04)
+Applies_C05 == Says("C05", App_C05)
+Applies_C06 == Says("C06", App_C06)
+Applies_C07 == Says("C07", App_C07)
+Applies_C08 == Says("C08", App_C08)
+Applies_C09 == Says("C09", App_C09)
+Applies_C10 == Says("C10", App_C10)
+Applies_C11 == Says("C11", App_C11)
+Applies_C12 == Says("C12", App_C12)
+Applies_C13 == Says("C13", App_C13)
+Applies_C14 == Says("C14", App_C14)
+Applies_C15 == Says("C15", App_C15)
+Applies_C16 == Says("C16", App_C16)
+Applies_C17 == Says("C17", App_C17)
+Applies_C18 == Says("C18", App_C18)
+Applies_C19 == Says("C19", App_C19)
+Applies_C20 == Says("C20", App_C20)
 =============================================================================
